@@ -191,13 +191,21 @@ def _read_exact(ex, args, f):
         rd.pos += n
         _store(ex, bufref, new)
         return ok()
-    n = len(items_of(ex, buf))
+    n = (buf.hi - buf.lo) if type(buf).__name__ == "SliceMut" else len(items_of(ex, buf))
     if n > rd.remaining():
         rd.pos = len(rd.data)
         return err(Opaque("io::Error(UnexpectedEof)"))
     vals = [Int(b, "u8") for b in rd.data[rd.pos:rd.pos + n]]
     rd.pos += n
-    if isinstance(buf, VecV):
+    if type(buf).__name__ == "SliceMut":
+        cur = list(items_of(ex, buf.ref))
+        cur[buf.lo:buf.hi] = vals
+        tgt = deref_all(ex, buf.ref)
+        if isinstance(tgt, VecV):
+            tgt.items[:] = cur
+        else:
+            _store(ex, buf.ref, Arr(cur))
+    elif isinstance(buf, VecV):
         buf.items[:] = vals
     else:
         _store(ex, bufref, Arr(vals))
